@@ -1131,7 +1131,11 @@ func genAccess(repo, target string) error {
 		es = append(es, q(e))
 	}
 	b.WriteString(strings.Join(es, ", "))
-	b.WriteString("]\n\nend Gozod.Gen.ConvAccess\n")
+	b.WriteString("]\n\n")
+	if err := a.emitOptionFacts(&b); err != nil { // options.go: the options struct, the Override call, what the document holds
+		return err
+	}
+	b.WriteString("end Gozod.Gen.ConvAccess\n")
 
 	old, _ := os.ReadFile(target)
 	if string(old) == b.String() {
